@@ -140,7 +140,90 @@ def worker(job):
         for backend in ('dict', 'maildir', 'maildir-fs'):
             with guarded(part, f'C04 rename {backend}', dict(backend=backend, scenario='rename', seed=seed * 100 + k)):
                 asyncio.run(rename_history(part, backend, random.Random(seed * 100 + k)))
+            if backend != 'dict':
+                with guarded(part, f'C04 delivery {backend}', dict(backend=backend, scenario='delivery', seed=seed * 100 + k)):
+                    asyncio.run(delivery_history(part, backend, random.Random(seed * 100 + k + 7)))
     return part.result()
+
+
+# ------------------------------------------------------------------ delivery by a foreign writer (maildir): files appear in new/ without a UID record
+async def delivery_history(part, backend, r):
+    import mailbox as pymailbox
+    import os
+    import re as _re
+    from pymap.imap import IMAPServer
+    base = backends.scratch_dir()
+    log = []
+    case = dict(backend=backend, scenario='delivery', log=log)
+    try:
+        config, login = await backends.make_maildir(base, layout='++' if backend == 'maildir' else 'fs', users=[('u', 'p', ())], bad_command_limit=None)
+        srv = IMAPServer(login, config)
+        seen_max = 0
+        content = {}
+        cid = 1
+
+        async def session(cmds):
+            c = wire.Client(srv)
+            await c.start()
+            await c.send(b'a LOGIN u p\r\n')
+            outs = []
+            for line in cmds:
+                outs.append(await c.send(b'a ' + line + b'\r\n'))
+                log.append(line.decode()[:50])
+            await c.eof()
+            return outs
+        await session([b'SELECT INBOX'])             # the first login creates the user's maildir
+        md = pymailbox.Maildir(os.path.join(base, 'u'), create=False)
+        for step in range(r.randint(3, 8)):
+            x = r.random()
+            if x < 0.45:
+                k = r.randint(1, 2)
+                for _ in range(k):
+                    md.add(pymailbox.MaildirMessage(l3.msg_bytes(cid)))         # straight into new/, as an MDA does
+                    cid += 1
+                log.append(f'deliver x{k}')
+                nontrivial = True
+            elif x < 0.6:
+                body = l3.msg_bytes(cid)
+                cid += 1
+                outs = await session([b'APPEND INBOX {%d+}\r\n' % len(body) + body])
+                m = _re.search(rb'APPENDUID \d+ (\d+)', outs[0])
+                if m:
+                    u = int(m.group(1))
+                    if u <= seen_max:
+                        part.violation('monitor', f'{backend}: APPEND after deliveries got UID {u}, not above {seen_max} (history {log})', case, signature='uid-not-increasing')
+                    seen_max = max(seen_max, u)
+                    content[u] = cid - 1
+            elif x < 0.7 and seen_max:
+                await session([b'SELECT INBOX', b'UID STORE %d +FLAGS (\\Deleted)' % seen_max, b'EXPUNGE'])
+            # observe: STATUS first (a fresh open), then EXAMINE + UID FETCH
+            how = r.choice(['status', 'examine', 'select'])
+            if how == 'status':
+                outs = await session([b'STATUS INBOX (MESSAGES UIDNEXT)', b'EXAMINE INBOX', b'UID FETCH 1:* (UID RFC822.SIZE)'])
+                m = _re.search(rb'UIDNEXT (\d+)', outs[0])
+            else:
+                outs = await session([(b'EXAMINE' if how == 'examine' else b'SELECT') + b' INBOX', b'NOOP', b'UID FETCH 1:* (UID RFC822.SIZE)'])
+                m = _re.search(rb'\[UIDNEXT (\d+)\]', outs[0])
+            uidnext = int(m.group(1)) if m else None
+            msgs = {}
+            for resp in imapresp.parse(outs[2]):
+                f = imapresp.fetch_items(resp)
+                if f:
+                    msgs[int(f[1][b'UID'].val)] = l3.cid_of_size(int(f[1][b'RFC822.SIZE'].val), lf=True)
+            if uidnext is not None and msgs and uidnext <= max(msgs):
+                part.violation('monitor', f'{backend}: {how.upper()} reports UIDNEXT {uidnext} but UID {max(msgs)} exists (history {log})', case, signature='uidnext-too-low')
+            for u, c_ in msgs.items():
+                if u in content and content[u] != c_:
+                    part.violation('monitor', f'{backend}: UID {u} denoted content {content[u]}, now {c_} (history {log})', case, signature='uid-reused')
+                if u not in content and u <= seen_max:
+                    part.violation('monitor', f'{backend}: a delivered message was given UID {u}, not above {seen_max} already used (history {log})', case, signature='uid-not-increasing')
+                content[u] = c_
+            if msgs:
+                seen_max = max(seen_max, max(msgs))
+        part.case(key=backend + ':delivery:' + repr(log), nontrivial=any(l_.startswith('deliver') for l_ in log))
+        part.stat('delivery-histories')
+    finally:
+        backends.rmtree(base)
 
 
 # ------------------------------------------------------------------ RENAME histories (wire level, monitor only)
@@ -301,6 +384,8 @@ def replay(case):
     case = case.get('case', case)
     if case.get('scenario') == 'rename':
         asyncio.run(rename_history(part, case['backend'], random.Random(case.get('seed', 1))))
+    elif case.get('scenario') == 'delivery':
+        asyncio.run(delivery_history(part, case['backend'], random.Random(case.get('seed', 1))))
     else:
         dumps = []
         backend = case.get('backend', 'dict')
